@@ -122,4 +122,51 @@ theorem mixed_bound_no_capture : SubsFresh (alphaMangle fusedT 1).1 fusedσ := b
   simp at hb
   rcases hb with rfl | rfl <;> simp [fusedσ, fvSubs, Term.fv]
 
+/-! ## `_alpha_convert` must substitute in EVERY sub-term
+
+`alpha_rename_contraction` (Props/C05/Alpha.lean) is about `renameRoot`, which renames the binder list AND
+substitutes `old ↦ Variable(new)` in all operands.  Renaming the binder list while substituting only in a subset
+of the sub-terms (e.g. only those a particular sub-term's inputs mention) un-binds the remaining occurrences. -/
+
+/-- rename the binder list, substitute in the FIRST operand only -/
+def renameRootFirstOnly (old new : Name) (dom : Dom) : Term → Term
+  | Term.contraction r b vars (t :: ts) => Term.contraction r b (renVars old new vars) (renBody old new dom t :: ts)
+  | t => t
+
+/-- `Σ_k m · f(k)`: the measure-like first operand does not mention `k`, the integrand-like second one does -/
+def partialT : Term :=
+  Term.contraction "add" "mul" [("k", ⟨DType.bint 2, []⟩)]
+    [Term.num (XR.fin 1) DType.real, Term.tensor [("k", 2)] ⟨DType.real, []⟩ #[XR.fin 1, XR.fin 2]]
+
+/-- the bound `k` is not free in the term, but IS free after the partial conversion: it has been un-bound -/
+theorem partial_alpha_unbinds :
+    "k" ∉ partialT.fv ∧ "k" ∈ (renameRootFirstOnly "k" "k__BOUND_1" ⟨DType.bint 2, []⟩ partialT).fv := by
+  constructor <;> simp [partialT, renameRootFirstOnly, renVars, renName, renBody, Term.fv, fvList, fvSubs]
+
+set_option maxRecDepth 8000 in
+theorem partial_alpha_value_full :
+    getAt (denote (renameRoot "k" "k__BOUND_1" ⟨DType.bint 2, []⟩ partialT) [("k", Sem.ofNat 0)]) [] = some (XR.fin 3) := by
+  simp [getAt, partialT, renameRoot, renVars, renName, renBody, denote, denoteProd, denoteSubs, assignments, Env.lookup,
+    List.range, List.range.loop, Sem.ofNat, Sem.scalar, Sem.toNat?, Sem.foldList, Sem.zip?, broadcastShapes,
+    broadcastShapes.go, bcastIdx, allIdx, foldOp, binop, ravel, prodList, XR.add, XR.mul]
+  decide +kernel
+
+set_option maxRecDepth 8000 in
+theorem partial_alpha_value_partial :
+    getAt (denote (renameRootFirstOnly "k" "k__BOUND_1" ⟨DType.bint 2, []⟩ partialT) [("k", Sem.ofNat 0)]) [] = some (XR.fin 2) := by
+  simp [getAt, partialT, renameRootFirstOnly, renVars, renName, renBody, denote, denoteProd, denoteSubs, assignments, Env.lookup,
+    List.range, List.range.loop, Sem.ofNat, Sem.scalar, Sem.toNat?, Sem.foldList, Sem.zip?, broadcastShapes,
+    broadcastShapes.go, bcastIdx, allIdx, foldOp, binop, ravel, prodList, XR.add, XR.mul]
+  decide +kernel
+
+/-- …and the value now depends on the caller's `k` (a free `k` of a sibling is merged with it): Σ_k f(k) = 3
+    becomes 2·f(k) = 2 at k = 0, whereas the full conversion keeps 3 (`alpha_rename_contraction`). -/
+theorem partial_alpha_witness :
+    denote (renameRootFirstOnly "k" "k__BOUND_1" ⟨DType.bint 2, []⟩ partialT) [("k", Sem.ofNat 0)] ≠
+      denote (renameRoot "k" "k__BOUND_1" ⟨DType.bint 2, []⟩ partialT) [("k", Sem.ofNat 0)] := by
+  intro h
+  have := congrArg (fun o => getAt o []) h
+  simp only [partial_alpha_value_full, partial_alpha_value_partial] at this
+  exact absurd this (by decide +kernel)
+
 end FV.Props.C05
